@@ -3,7 +3,8 @@
 # of /verif and its own scratch worktree of /repo (nothing is applied to /repo itself):
 #   harness/run_all_seeds_par.sh [W] > log
 W=${1:-5}
-names=$(ls /verif/seeded | grep -v README)
+names=${SEEDS:-$(ls /verif/seeded | grep -v README)}
+names=$(echo $names | tr " " "\n")
 for k in $(seq 1 $W); do
   rm -rf /tmp/sr_$k; mkdir -p /tmp/sr_$k
   rsync -a --exclude .git --exclude build/cases --exclude replays /verif/ /tmp/sr_$k/verif/
